@@ -97,47 +97,53 @@ CHECKS["C03"] = dict(
     technique="Coq real-analysis proof (Coquelicot RInt_gen, derivatives) over generated definitions + Interval enclosure",
     design="4/C03")
 CHECKS["C01"] = dict(
-    text=("Theorems (MathComp, all dimensions, any real closed field, 14 obligations) about MatOps-generic definitions regenerated each run by "
+    text=("Theorems (MathComp, all dimensions, any real closed field, 15 obligations) about MatOps-generic definitions regenerated each run by "
           "translate/pymatrix.py from conditional.py/util.py: add_variance diagonal floor; normal equations of the full, DTC and Cholesky-latent "
           "formulations for every noise path (y_is_mean, scalar, vector sigma, supplied factor) with uniqueness; the mean is an affine read-out "
           "and row-local (batch/permutation independence); nine-class table. The SAME generated definitions are executed under a PrimFloat "
           "instance inside Coq on the implementation's Gram matrices and compared through residuals with a derived tolerance; an independent "
           "NumPy dense solve of the stated normal equations produces replays."),
     note=("Trusted: Coq kernel; pymatrix translator; library contracts as Section hypotheses (cholesky on SPD input, solve_triangular = inverse "
-          "of the triangle read) validated by residual on every recorded call; PSD of kernel Gram matrices is a hypothesis. No non-vacuity "
-          "Example for the chol contract (needs a Cholesky existence proof over rcfType - not written). Dispatch theorem lives in C15/C02."),
+          "of the triangle read) validated by residual on every recorded call; PSD of kernel Gram matrices is a hypothesis. The chol contract is "
+          "satisfiable: lib/MxChol.v constructs the Cholesky factor of every spd matrix over any real closed field (C01_chol_contract_satisfiable). Dispatch theorem lives in C15/C02."),
     technique="Coq MathComp proof over translator-generated generic matrix definitions + PrimFloat execution of the same definitions",
     design="4/C01")
 CHECKS["C16"] = dict(
-    text=("Theorems (9 obligations): weights of the full and DTC families are linear in (y - mu), hence pred(a y + b, a mu + b) = a pred + b; "
+    text=("Theorems (12 obligations): weights of the full and DTC families are linear in (y - mu), hence pred(a y + b, a mu + b) = a pred + b; "
           "column independence; interpolation identity pred(X) - y = -jitter * w for y_is_mean or sigma^2 <= jitter (full) and the DTC analogue; "
-          "constant vector sigma = scalar sigma. Real FunctionEstimator fits over scalings a in +-[1e-3,1e3], 1-5 columns, with/without Xnew, "
+          "constant vector sigma = scalar sigma; requesting uncertainty never changes the weights; the in-sample deviation from the prior mean shrinks "
+          "monotonically (squared norm) as |sigma| grows (thm/ShrinkThm.v); the Cholesky contract is satisfiable (lib/MxChol.v). Real FunctionEstimator fits over scalings a in +-[1e-3,1e3], 1-5 columns, with/without Xnew, "
           "multi_fit_predict, checked against the proved identities with derived tolerances."),
-    note=("Trusted: as C01. shrinkage_monotone is NOT proved (searcher only). Known C15 findings (landmarks + uncertainty / vector sigma) are excluded."),
+    note=("Trusted: as C01. Known C15 findings (landmarks + uncertainty / vector sigma) are excluded."),
     technique="Coq MathComp proof over translator-generated definitions + PrimFloat execution + real fits",
     design="4/C16")
 CHECKS["C04"] = dict(
-    text=("Theorems (6 obligations): full: L L^T = K + max(sigma^2,j) I; inducing points: L L^T = K_xu (K_uu + j I)^-1 K_ux (recomputed and "
+    text=("Theorems (7 obligations): full: L L^T = K + max(sigma^2,j) I; inducing points: L L^T = K_xu (K_uu + j I)^-1 K_ux (recomputed and "
           "supplied Lp); full Nystroem: gap = discarded eigen-part, PSD; improved Nystroem factor identity; (K + j I) - L L^T is PSD via the Schur "
           "complement under the joint-Gram PSD hypothesis. PrimFloat execution of the generated decomposition routines on recorded Gram matrices, "
           "eigh/qr outputs recorded and contract-checked; NumPy oracle for residuals and the minimum eigenvalue of the gap."),
-    note=("Trusted: as C01 plus eigh/qr contracts (validated per call). W^-1 = v S^-1 v^T for the improved Nystroem inner matrix is not proved. "
+    note=("Trusted: as C01 plus eigh/qr contracts (validated per call; the eigen contract is claimed only for p <= rank W, see C09). "
+          "W^-1 = v S^-1 v^T for the improved Nystroem inner matrix is not proved. "
           "Shapes of error branches are covered by C15."),
     technique="Coq MathComp proof (Schur complement) over translator-generated definitions + PrimFloat execution",
     design="4/C04")
 CHECKS["C06"] = dict(
-    text=("Theorems (9 obligations): posterior covariance symmetric PSD, diag path = diagonal of the full path, 0 <= var <= k(x,x), covariance at "
+    text=("Theorems (11 obligations): posterior covariance symmetric PSD, diag path = diagonal of the full path, 0 <= var <= k(x,x), covariance at "
           "conditioning points N - N (K+N)^-1 N hence in [0, jitter], the three families share the covariance body, mean_covariance is the Gram "
-          "matrix of K_su W, W is the linear propagator of the input covariance factor (incl. latent std form). PrimFloat execution + NumPy "
+          "matrix of K_su W, W is the linear propagator of the input covariance factor (incl. latent std form); adding inducing points never "
+          "increases the covariance (Loewner order, hence no variance: variational bound for x^T A^-1 x, thm/MonoThm.v); the Cholesky contract is "
+          "satisfiable (lib/MxChol.v constructs the factor of every spd matrix by recursion on the dimension). PrimFloat execution + NumPy "
           "oracle (symmetry, eigenvalues, diag agreement, bounds, propagation by refitting with shifted y)."),
-    note=("Trusted: as C01. var_monotone_in_inducing_points, uncertainty_is_sum and the ValueError guards are NOT proved (searcher/execution only)."),
+    note=("Trusted: as C01. uncertainty_is_sum and the ValueError guards of the base-class wrappers are NOT proved (execution only)."),
     technique="Coq MathComp proof over translator-generated definitions + PrimFloat execution",
     design="4/C06")
 CHECKS["C09"] = dict(
-    text=("Theorems (5 obligations), landmarks = cells: L_s L_s^T = (K + j I) - 2 j I + j^2 A'^-1 with the Loewner sandwich; Cholesky-latent vs "
+    text=("Theorems (7 obligations), landmarks = cells: L_s L_s^T = (K + j I) - 2 j I + j^2 A'^-1 with the Loewner sandwich; Cholesky-latent vs "
           "full prediction differ by j K_*x A'^-1 w; DTC vs full weights identity; the three covariance bodies coincide; truncation error = "
-          "discarded eigen-part (PSD, trace = discarded mass). PrimFloat execution + real triples of formulations on identical data."),
-    note=("Trusted: as C01/C04. 'p = n => L_p L_p^T = K + j I' is covered by execution only; spectral-norm statements are replaced by Loewner/trace forms."),
+          "discarded eigen-part (PSD, trace = discarded mass); a full-rank request (all n pairs) gives L L^T = K + j I = the full model's. "
+          "PrimFloat execution + real triples of formulations on identical data."),
+    note=("Trusted: as C01/C04. The eigen contract is claimed only for p <= rank W (a psd matrix has exactly rank W positive eigenvalues; the C10 count rule "
+          "keeps no more) - its satisfiability is the spectral theorem, which is not proved here. Spectral-norm statements are replaced by Loewner/trace forms."),
     technique="Coq MathComp proof over translator-generated definitions + PrimFloat execution",
     design="4/C09")
 CHECKS["C07"] = dict(
